@@ -8,6 +8,7 @@ mod gen_color;
 mod gen_geom;
 mod gen_math;
 mod gen_meta;
+mod gen_safety;
 mod replay;
 mod gen_tf;
 mod gen_yuv;
@@ -17,6 +18,7 @@ use std::path::PathBuf;
 
 pub struct Opts {
     pub plan: String,
+    pub as_prop: String,
     pub out: PathBuf,
     pub shards: usize,
     pub thorough: bool,
@@ -38,7 +40,7 @@ fn main() {
         eprintln!("usage: yvx-conform gen <PROP> --out <dir> [--shards N] [--tier quick|thorough] [--seed S]");
         std::process::exit(2);
     }
-    let mut o = Opts { plan: String::new(), out: PathBuf::from("."), shards: 1, thorough: false, seed: 1 };
+    let mut o = Opts { plan: String::new(), as_prop: String::new(), out: PathBuf::from("."), shards: 1, thorough: false, seed: 1 };
     let mut pos: Vec<String> = Vec::new();
     let mut i = 2;
     while i < args.len() {
@@ -53,6 +55,10 @@ fn main() {
             }
             "--tier" => {
                 o.thorough = args[i + 1] == "thorough";
+                i += 1;
+            }
+            "--as" => {
+                o.as_prop = args[i + 1].clone();
                 i += 1;
             }
             "--plan" => {
@@ -72,6 +78,9 @@ fn main() {
         "gen" => {
             let prop = pos.first().expect("property id").clone();
             let mut sh = util::Shards::create(&o.out, &prop, o.shards, &build_tag()).expect("create shards");
+            if !o.as_prop.is_empty() {
+                sh.set_prop(&o.as_prop);
+            }
             let stats = match prop.as_str() {
                 "C01" => gen_yuv::gen_c01(&mut sh, &o),
                 "C02" => gen_yuv::gen_c02(&mut sh, &o),
@@ -79,6 +88,7 @@ fn main() {
                 "C03" => gen_tf::gen_c03(&mut sh, &o),
                 "C10" => gen_tf::gen_c10(&mut sh, &o),
                 "C14" => gen_meta::gen_c14(&mut sh, &o),
+                "C13" => gen_safety::gen_c13(&mut sh, &o, None),
                 "GEOM" => gen_geom::gen_geom(&mut sh, &o, &o.plan),
                 "C12DATA" => gen_geom::gen_c12_data(&mut sh, &o),
                 "C18" => gen_math::gen_c18(&mut sh, &o),
@@ -100,6 +110,10 @@ fn main() {
             };
             let (events, bytes) = sh.finish();
             println!("{}", serde_json::json!({"prop": prop, "build": build_tag(), "events": events, "bytes": bytes, "stats": stats}));
+        }
+        "c13worker" => {
+            let batch = pos.first().expect("batch").clone();
+            gen_safety::worker_main(&batch, &o);
         }
         "replay" => {
             // replay <cases.ndjson> <PROP> --out <dir>
